@@ -1156,9 +1156,9 @@ def FIBER(
     A = input.signal
 
     def step_size(A):
-        # step for a maximum nonlinear phase `phi_max`, from the peak of the total power of both polarizations
+        # step for a maximum nonlinear phase `phi_max`, from the peak of the total power of both polarizations (never beyond the fiber end)
         peak = (np.abs(np.atleast_2d(A)) ** 2).sum(axis=0).max()
-        return phi_max / (gamma * peak) if peak > 0 else length
+        return min(phi_max / (gamma * peak), length) if peak > 0 else length
 
     h = (
         length
